@@ -58,6 +58,73 @@ fn dur_step(value: f64) -> MsIn {
     MsIn::Ms(ms.round() as i64)
 }
 
+/// The serial as the model takes it (`Serial` in Model/Dates.lean): the whole-day part exactly,
+/// the fractional part only as the ROUNDED millisecond-of-day the real float expression gave on
+/// each path — never the day number or the date system, which the model derives itself.
+fn serial_wire(v: f64) -> String {
+    const D: i64 = MS_PER_DAY;
+    if v.is_finite() && v.abs() <= 1e8 {
+        let fl = v.floor();
+        if v == fl {
+            return format!("w:{}", fl as i64);
+        }
+        let fr = v - fl; // exact
+        let r = |m: MsIn| -> i64 {
+            match m {
+                MsIn::Ms(x) => {
+                    let b = x.rem_euclid(D);
+                    if fr >= 0.5 && b < D / 2 {
+                        D // rounded up to the next midnight
+                    } else {
+                        b
+                    }
+                }
+                MsIn::NonFinite => unreachable!(),
+            }
+        };
+        format!("f:{}:{}:{}:{}", fl as i64, r(date_step(v, false)), r(date_step(v, true)), r(dur_step(v)))
+    } else {
+        format!("r:{}:{}:{}", date_step(v, false).wire(), date_step(v, true).wire(), dur_step(v).wire())
+    }
+}
+
+/// a numeric / date-time cell in the driver's syntax
+fn cell_wire(kind: &str, v: f64, as_int: i64, td: bool, is_1904: bool) -> String {
+    match kind {
+        "int" if as_int.unsigned_abs() <= 100_000_000 => format!("int {as_int}"),
+        "int" => format!("float {}", serial_wire(as_int as f64)),
+        "float" => format!("float {}", serial_wire(v)),
+        "dt" => format!("dt {} {} {}", serial_wire(v), sys_name(is_1904), if td { "td" } else { "dt" }),
+        _ => "other".to_string(),
+    }
+}
+
+fn wire_time(t: &NaiveTime) -> String {
+    format!("{}/{}/{}/{}", t.hour(), t.minute(), t.second(), t.nanosecond() / 1_000_000)
+}
+fn wire_date(d: &NaiveDate) -> String {
+    format!("{}/{}/{}", d.year(), d.month(), d.day())
+}
+
+/// an ISO cell in the driver's syntax: the outcomes of the chrono parsers the code calls on the text
+fn iso_wire(text: &str, is_dur: bool) -> String {
+    use std::str::FromStr;
+    if is_dur {
+        let pt = NaiveTime::parse_from_str(text, "PT%HH%MM%S%.fS").ok();
+        format!("isodur {}", opt(&pt, wire_time))
+    } else {
+        let pdt = NaiveDateTime::from_str(text).ok();
+        let pd = NaiveDate::from_str(text).ok();
+        let pt = NaiveTime::from_str(text).ok();
+        format!(
+            "iso {} {} {}",
+            opt(&pdt, |x| format!("{}/{}", wire_date(&x.date()), wire_time(&x.time()))),
+            opt(&pd, wire_date),
+            opt(&pt, wire_time)
+        )
+    }
+}
+
 // ---------------------------------------------------------------------------------------------
 // oracle (a): exact rounding of the float step
 // ---------------------------------------------------------------------------------------------
@@ -365,12 +432,11 @@ fn sys_name(is_1904: bool) -> &'static str {
 
 struct DtOut {
     imp: Result<Option<NaiveDateTime>, String>,
-    step: MsIn,
 }
 
 fn run_dt(v: f64, is_1904: bool) -> DtOut {
     let imp = guarded(|| ExcelDateTime::new(v, ExcelDateTimeType::DateTime, is_1904).as_datetime());
-    DtOut { imp, step: date_step(v, is_1904) }
+    DtOut { imp }
 }
 
 /// property oracle for one `as_datetime` result; returns (sig, expectation) on a violation
@@ -477,25 +543,22 @@ fn next_down(v: f64) -> f64 {
 fn check_points(points: &[(f64, bool)], drv: &mut Driver, loc: &mut Local, track: bool) {
     // as_datetime
     let outs: Vec<DtOut> = points.iter().map(|(v, s)| run_dt(*v, *s)).collect();
-    let mut req = String::from("civil");
-    for o in &outs {
-        req.push(' ');
-        req.push_str(&o.step.wire());
-    }
-    let reply = drv.ask(&req);
-    let models: Vec<&str> = reply.split(';').collect();
-    assert_eq!(models.len(), points.len(), "driver reply arity: {reply}");
     // as_duration
     let durs: Vec<Result<Option<chrono::Duration>, String>> =
         points.iter().map(|(v, s)| guarded(|| ExcelDateTime::new(*v, ExcelDateTimeType::TimeDelta, *s).as_duration())).collect();
-    let mut req = String::from("dur");
-    for (v, _) in points {
+    // model: serial + flag; the shim, the offset and the choice of path happen in the model
+    let mut req = String::from("edt");
+    for (v, s) in points {
         req.push(' ');
-        req.push_str(&dur_step(*v).wire());
+        req.push_str(sys_name(*s));
+        req.push(',');
+        req.push_str(&serial_wire(*v));
     }
     let reply = drv.ask(&req);
-    let dmodels: Vec<&str> = reply.split(';').collect();
-    assert_eq!(dmodels.len(), points.len(), "driver reply arity: {reply}");
+    let both: Vec<(&str, &str)> = reply.split(';').map(|x| x.split_once('|').unwrap_or((x, "bad-reply"))).collect();
+    assert_eq!(both.len(), points.len(), "driver reply arity: {reply}");
+    let models: Vec<&str> = both.iter().map(|x| x.0).collect();
+    let dmodels: Vec<&str> = both.iter().map(|x| x.1).collect();
     for (i, (v, s)) in points.iter().enumerate() {
         let input = format!("dt {} {}", sys_name(*s), bits(*v));
         let imp_s = show_res(&outs[i].imp, show_dt);
@@ -862,7 +925,13 @@ fn check_cell(desc: &str, drv: &mut Driver, loc: &mut Local) {
         "dt" | "rdt" => ("dt", v, is_1904),
         _ => ("other", 0.0, false),
     };
-    let model = drv.ask(&format!("cell {kind} {} {}", date_step(serial, sys).wire(), dur_step(serial).wire()));
+    let wire_kind = match variant {
+        "float" | "rfloat" => "float",
+        "int" | "rint" => "int",
+        "dt" | "rdt" => "dt",
+        _ => "other",
+    };
+    let model = drv.ask(&format!("cell {}", cell_wire(wire_kind, v, as_int, p.len() > 3 && p[3] == "td", is_1904)));
     loc.evaluations += 1;
     loc.count(&format!("cell.{variant}"));
     let imp_s = match &r {
@@ -913,7 +982,7 @@ fn track_cell<T>(r: &Result<(Option<NaiveDateTime>, T, Option<NaiveTime>, Option
 
 /// ISO strings (parsed by chrono, not modelled): the components written into the string must
 /// come back.  desc: "iso <form> y m d h mi s ms"
-fn check_iso(desc: &str, loc: &mut Local) {
+fn check_iso(desc: &str, drv: &mut Driver, loc: &mut Local) {
     let p: Vec<&str> = desc.split(' ').collect();
     let form = p[1];
     let n = |i: usize| p[i].parse::<i64>().unwrap();
@@ -948,12 +1017,17 @@ fn check_iso(desc: &str, loc: &mut Local) {
         format!("dt={} date={} time={} dur={}", show_dt(&x.0), opt(&x.1, show_date), opt(&x.2, show_time), show_dur(&x.3))
     };
     let input = format!("{desc} [{text}]");
+    // model: the branching of as_date/as_time/as_duration around the chrono parsers
+    let model = drv.ask(&format!("cell {}", iso_wire(&text, is_dur)));
     for (which, r) in [("Data", &r), ("DataRef", &r2)] {
         match r {
-            Err(p) => loc.fail("impl_vs_spec", "panic:iso", &input, &format!("{which} panic: {p}"), "", &show(&exp)),
+            Err(p) => loc.fail("impl_vs_spec", "panic:iso", &input, &format!("{which} panic: {p}"), &model, &show(&exp)),
             Ok(got) => {
                 if *got != exp {
-                    loc.fail("impl_vs_spec", &format!("iso_{form}"), &input, &format!("{which} {}", show(got)), "", &show(&exp));
+                    loc.fail("impl_vs_spec", &format!("iso_{form}"), &input, &format!("{which} {}", show(got)), &model, &show(&exp));
+                }
+                if show(got) != model {
+                    loc.fail("impl_vs_model", &format!("iso_{form}"), &input, &format!("{which} {}", show(got)), &model, "");
                 }
             }
         }
@@ -1064,7 +1138,15 @@ fn check_helper(desc: &str, drv: &mut Driver, loc: &mut Local) {
         "dt" => ("dt", v, is_1904),
         _ => ("other", 0.0, false),
     };
-    let model = drv.ask(&format!("helper {kind} {} {} {}", date_step(serial, sys).wire(), dur_step(serial).wire(), date_step(serial, false).wire()));
+    let _ = (kind, serial, sys);
+    let model = drv.ask(&format!(
+        "helper {}",
+        match variant {
+            "iso" => iso_wire("2021-10-15T19:00:00", false),
+            "isodur" => iso_wire("PT10H10M10S", true),
+            _ => cell_wire(variant, v, as_int, p.len() > 3 && p[3] == "td", is_1904),
+        }
+    ));
     let (imp_s, verdict): (String, Option<String>) = match &r {
         Err(pn) => (format!("panic: {pn}"), Some("panic:helper".into())),
         Ok(Err(e)) => (format!("error: {e}"), Some("helper_error".into())),
@@ -1129,7 +1211,7 @@ fn run_input(inp: &str, drv: &mut Driver, loc: &mut Local) {
         "mono" => check_monotone(&[(unbits(p[2]), p[1] == "1904"), (unbits(p[3]), p[1] == "1904")], loc),
         "cell" => check_cell(inp, drv, loc),
         "helper" => check_helper(inp, drv, loc),
-        "iso" => check_iso(&p[..9].join(" "), loc),
+        "iso" => check_iso(&p[..9].join(" "), drv, loc),
         x => panic!("bad replay input {x}"),
     }
 }
@@ -1335,7 +1417,7 @@ fn main() {
                     }
                     for _ in 0..n_iso / threads as u64 {
                         let c = gen_iso(&mut rng);
-                        check_iso(&c, &mut loc);
+                        check_iso(&c, &mut drv, &mut loc);
                     }
                     loc.add("driver_requests", drv.requests);
                     loc
